@@ -53,6 +53,19 @@ def error_sources(body):
     return out
 
 
+def _mut_borrowed_locals(body, t):
+    """locals passed to the call as `&mut local` (the temporary holding the borrow is defined by a `&mut` ref rvalue)"""
+    out = []
+    for a in t["args"]:
+        p = a.get("c") or a.get("m")
+        if p is None or p["p"]:
+            continue
+        for dbb, si, kind, payload in body.defs().get(p["l"], []):
+            if kind == "rv" and payload["k"] == "ref" and payload.get("mut") and not payload["p"]["p"]:
+                out.append(payload["p"]["l"])
+    return out
+
+
 def flows_to_return(body, src_local):
     """Flow-insensitive forward taint from src_local; True if _0 gets tainted through moves, aggregates,
     downcasts and calls whose destination type mentions the Error type."""
@@ -87,6 +100,10 @@ def flows_to_return(body, src_local):
                 name = t["f"].get("name")
                 if name in CONSUMING:
                     continue
+                for l2 in _mut_borrowed_locals(body, t):
+                    if l2 not in tainted and "Error" in body.locals[l2]["adts"]:
+                        tainted.add(l2)       # `slot.get_or_insert(e)`, `vec.push(e)`: the error is stored through &mut
+                        changed = True
                 if ("Error" in dty["adts"]) and d not in tainted:
                     tainted.add(d)
                     changed = True
@@ -123,6 +140,10 @@ def _tainted_locals(body, src_local):
                 d = t["dst"]["l"]
                 if t["f"].get("name") in CONSUMING:
                     continue
+                for l2 in _mut_borrowed_locals(body, t):
+                    if l2 not in tainted and l2 != 0 and "Error" in body.locals[l2]["adts"]:
+                        tainted.add(l2)
+                        changed = True
                 if "Error" in body.locals[d]["adts"] and d not in tainted and d != 0:
                     tainted.add(d)
                     changed = True
